@@ -50,7 +50,7 @@ def _worker(args):
       out["kinds"][k] = out["kinds"].get(k, 0) + v
     for rec in h.bundles:
       if rec.get("nontrivial"):
-        out["nontrivial"].append(json.dumps(rec["actions"], sort_keys=True, default=str))
+        out["nontrivial"].append(json.dumps(rec.get("nontrivial_key", rec["actions"]), sort_keys=True, default=str))
         if len(out["samples"]) < 2:
           out["samples"].append({"actions": rec["actions"], "stored": (rec["res"].stored or [])[:6],
                                  "undo": (rec["res"].undo or [])[:6], "error": rec["res"].error,
